@@ -61,16 +61,23 @@ void vfps::RFKickMap::_calcKick(const meshaxis_t phase, const meshaxis_t ampl)
     if (_linear) {
         meshaxis_t phaseoffs = (_syncphase-phase);
         const meshaxis_t xcenter = _in->getAxis(0)->zerobin();
-        for(meshindex_t x=0; x<_xsize; x++) {
-            _offset[x] = std::tan(_angle)*(xcenter-x);
-            _offset[x] += std::tan(_angle)*phaseoffs/_bl2phase/_axis[0]->delta();
-            _offset[x] *= ampl;
+        // all bunches see the same RF: fill the block of every bunch
+        for (uint32_t n=0; n<PhaseSpace::nb; n++) {
+            for(meshindex_t x=0; x<_xsize; x++) {
+                const meshindex_t i = n*_xsize+x;
+                _offset[i] = std::tan(_angle)*(xcenter-x);
+                _offset[i] += std::tan(_angle)*phaseoffs/_bl2phase/_axis[0]->delta();
+                _offset[i] *= ampl;
+            }
         }
     } else {
-        for(meshindex_t x=0; x<_xsize; x++) {
-            _offset[x] = _revolutionpart*(-ampl*_V_RF
-                       * std::sin(_axis[0]->at(x)*_bl2phase+phase)
-                       + _V0)/ _axis[1]->delta()/_axis[1]->scale("ElectronVolt");
+        // all bunches see the same RF: fill the block of every bunch
+        for (uint32_t n=0; n<PhaseSpace::nb; n++) {
+            for(meshindex_t x=0; x<_xsize; x++) {
+                _offset[n*_xsize+x] = _revolutionpart*(-ampl*_V_RF
+                           * std::sin(_axis[0]->at(x)*_bl2phase+phase)
+                           + _V0)/ _axis[1]->delta()/_axis[1]->scale("ElectronVolt");
+            }
         }
     }
 
